@@ -327,12 +327,23 @@ def derived_and_separator(ctx):
               '</xsd:complexType><xsd:complexType name="Order"><xsd:sequence><xsd:element name="Part" type="x:R"/>'
               '</xsd:sequence></xsd:complexType><xsd:element name="f"><xsd:complexType><xsd:sequence>'
               '<xsd:element name="o" type="x:Order"/></xsd:sequence></xsd:complexType></xsd:element>')
+    # enumeration facets are values, never members: a simpleContent type extending an enumeration and a child with an
+    # inline enumeration hold nothing but their text value / attributes
+    schema = schema.replace('<xsd:complexType name="Order.Part">',
+                            '<xsd:complexType name="Weight"><xsd:simpleContent><xsd:extension base="x:Color">'
+                            '<xsd:attribute name="n" type="xsd:int" default="1"/></xsd:extension></xsd:simpleContent>'
+                            '</xsd:complexType><xsd:complexType name="Box"><xsd:sequence><xsd:element name="w" '
+                            'type="x:Weight"/><xsd:element name="u"><xsd:simpleType><xsd:restriction base="xsd:string">'
+                            '<xsd:enumeration value="a"/><xsd:enumeration value="b"/></xsd:restriction></xsd:simpleType>'
+                            '</xsd:element></xsd:sequence></xsd:complexType><xsd:complexType name="Order.Part">', 1)
     client = wsdlkit.client(wsdlkit.wsdl_doc(schema, "f", None), nosend=True)
     r_obj = {"__class__": "R", "a": None, "_k": "9", "_j": "1"}
+    w_obj = {"__class__": "Weight", "value": None, "_n": "1"}
     want = [("Shade", {"__class__": T + "Shade", "red": "red", "green": "green", "blue": "blue"}),
             ("Short", {"__class__": T + "Short", "red": "red", "green": "green", "blue": "blue"}),
             ("Base", {"__class__": "Base", "a": None, "_k": "7", "_j": "1"}), ("R", r_obj),
-            ("Order", {"__class__": "Order", "Part": r_obj}), ("Order.Part", r_obj)]
+            ("Order", {"__class__": "Order", "Part": r_obj}), ("Order.Part", r_obj), ("Weight", w_obj),
+            ("Box", {"__class__": "Box", "w": w_obj, "u": {"__class__": "u"}})]
     after = [("Order.Part", {"__class__": "Order.Part", "p": None}), ("Order/Part", r_obj),
              ("Order", {"__class__": "Order", "Part": r_obj})]
     for phase, names in (("separator '.'", want), ("separator '/'", after)):
